@@ -122,6 +122,11 @@ def gen_region_case(rng):
             a["sl"] = (None, None, None)
             a["m"] = a["n"]
             a["sc"] = min(a["sc"], a["m"])
+        if all(a["sl"] == (None, None, None) for a in axes if not a.get("absent")):
+            # all-None entries mean "no region" to the code, whatever the tuple's length: keep this a region request
+            axes[0]["sl"] = (0, None, None)
+            axes[0]["m"] = axes[0]["n"]
+            axes[0]["sc"] = min(axes[0]["sc"], axes[0]["m"])
     # keep n-D cases small
     while nd > 1 and _prod(a["n"] for a in axes) > 400:
         for a in axes:
